@@ -335,20 +335,11 @@ theorem encAll_R (nS nM : Nat) : ∀ (es : List MEv) (e e' : Enc) (I : List Ins)
 (`stepI`) of one instruction `evIns` per event -/
 def opsOf (nS nM : Nat) (es : List MEv) (drum : Bool) : List Op := (runI (es.map (evIns nS nM)) (drum, [])).2.reverse
 
-/-- loops are balanced: depth 0 at the end (a loop end at depth 0 makes `convert_track` fail) -/
-def balanced (es : List MEv) : Bool := es.foldl (fun d ev => dstep ev.type d) 0 == 0
-
 /-- the fragment of the reader tie: the list ends with its only terminator, all events have a
 defined encoding, loops are balanced -/
 def Frag (es : List MEv) : Prop :=
   ∃ body t, es = body ++ [t] ∧ (∀ ev ∈ body, okEv ev = true ∧ isTermOp ev.type = false) ∧
     (okEv t = true ∧ isTermOp t.type = true) ∧ balanced es = true
-
-/-- `Frag`, decided -/
-def fragB (es : List MEv) : Bool :=
-  match es.getLast? with
-  | none => false
-  | some t => es.dropLast.all (fun ev => okEv ev && !isTermOp ev.type) && okEv t && isTermOp t.type && balanced es
 
 theorem fragB_sound {es : List MEv} (h : fragB es = true) : Frag es := by
   unfold fragB at h
